@@ -9,9 +9,9 @@ use core::marker::PhantomData;
 use serde_json::{json, Value};
 
 /// the K values that are instantiated; runtime guard `k * BITS <= storage bits`
-pub const KS: [usize; 36] = [
+pub const KS: [usize; 39] = [
     1, 2, 3, 4, 5, 6, 7, 8, 9, 10, 11, 12, 13, 14, 15, 16, 17, 18, 19, 20, 21, 22, 23, 24, 25, 26,
-    27, 28, 29, 30, 31, 32, 33, 42, 63, 64,
+    27, 28, 29, 30, 31, 32, 33, 42, 63, 64, 65, 127, 128,
 ];
 
 macro_rules! dispatch_k {
@@ -53,6 +53,9 @@ macro_rules! dispatch_k {
             42 => { const $K: usize = 42; $body }
             63 => { const $K: usize = 63; $body }
             64 => { const $K: usize = 64; $body }
+            65 => { const $K: usize = 65; $body }
+            127 => { const $K: usize = 127; $body }
+            128 => { const $K: usize = 128; $body }
             other => panic!("K={other} is not instantiated in the harness"),
         }
     };
@@ -149,6 +152,8 @@ pub fn kview<A: Cx, const K: usize, S: StX>(k: &Kmer<A, K, S>) -> Value {
 pub enum KReq<'a, A: Cx> {
     View,
     FromSlice(&'a SeqSlice<A>),
+    /// `Kmer::unsafe_from_seqslice`: only ever asked for a slice of exactly K symbols
+    FromSliceUnchecked(&'a SeqSlice<A>),
     Parse(&'a str),
     RotL(u32),
     RotR(u32),
@@ -177,6 +182,10 @@ where
     match req {
         KReq::View => KRes::V(kview(&k)),
         KReq::FromSlice(s) => KRes::K(Kmer::<A, K, S>::try_from(s).ok().map(|x| x.bs.to_u128())),
+        KReq::FromSliceUnchecked(s) => {
+            assert!(s.len() == K, "harness: unchecked construction needs exactly K symbols");
+            KRes::K(Some(Kmer::<A, K, S>::unsafe_from_seqslice(s).bs.to_u128()))
+        }
         KReq::Parse(t) => KRes::K(t.parse::<Kmer<A, K, S>>().ok().map(|x| x.bs.to_u128())),
         KReq::RotL(n) => KRes::K(Some(k.rotated_left(n).bs.to_u128())),
         KReq::RotR(n) => KRes::K(Some(k.rotated_right(n).bs.to_u128())),
